@@ -20,12 +20,13 @@ import A2Verif.Model.VolSpec
 
 The model is a transcription of a2kit's ProDOS module, tied byte for byte to the real code after every operation of
 every generated history (`Drv/FsProdos.lean`, `harness/src/fam/fs_prodos.rs`).  This file collects the theorems about
-it (details: `design/FsProdos.md`).  **Proved for all inputs, source as repaired, volumes without sub-directories**: the
-on-disk invariant `Inv` and the states `SInv` of the disk object between two calls; the refinement of `put` (seedling, sapling,
-tree, sparse), `delete`, `rename`, `lock`, `unlock`, `retype` on the volume directory — every outcome, `Inv` preserved
-(`prodos_put_refines`, `prodos_delete_refines`, `prodos_rename_refines`, `prodos_lock_refines_inv`, …); `prodos_step_refines`,
-`prodos_history_refines`; and the C01–C05 / C19 corollaries for the concrete model at the end of the file.  **Not proved**:
-`mkdir`, paths into sub-directories, directory growth, `format` for every size.  Older results, kept:
+it (details: `design/FsProdos.md`).  **Proved for all inputs, source as repaired, volumes with one level of sub-directories,
+operations addressing the volume directory**: the on-disk invariant `Inv` and the states `SInv` of the disk object between
+two calls; the refinement of `put` (seedling, sapling, tree, sparse), `mkdir`, `delete` (of a file and of a sub-directory),
+`rename` (of a file), `lock`, `unlock`, `retype` — every outcome, `Inv` preserved (`prodos_put_refines`,
+`prodos_mkdir_refines`, `prodos_delete_refines`, `prodos_rename_refines`, `prodos_lock_refines_inv`, …);
+`prodos_step_refines`, `prodos_history_refines`; and the C01–C05 / C19 corollaries for the concrete model at the end of the
+file.  **Not proved**: operations on paths into sub-directories, directory growth, `format` for every size.  Older results, kept:
 
 * **refinement of `lock`, `unlock` and `retype` for files of the volume directory** (`prodos_lock_refines`,
   `prodos_unlock_refines`, `prodos_retype_refines`): if the image reads (total reader `Read.ProdosT.read`) as a well-formed volume `v` and
@@ -413,9 +414,9 @@ theorem prodos_delete_frees_owned {d : Disk} {bm cnt : Nat} (h : St d bm cnt) (e
   exact ⟨d', raw', buf', h1, h2, by rw [ho]; exact h4, by rw [ho]; exact h8⟩
 
 /-- **`delete(path)` refines the abstract `delete`** (C02, C03, C04, C05, C19; files of the volume directory — seedling,
-sapling or tree —, volumes without sub-directories, source as repaired).  `path` has the normal form `[volume, name]`.  From
+sapling or tree — and sub-directories of it, source as repaired).  `path` has the normal form `[volume, name]`.  From
 either buffer state: whatever the outcome (deleted; `PATH NOT FOUND` for a missing or invalid name; `WRITE PROTECTED` for a
-file whose destroy bit is clear), after `get_img()` the disk object satisfies `SInv` again — the image satisfies `Inv` — and
+file whose destroy bit is clear and for a directory that still holds a file), after `get_img()` the disk object satisfies `SInv` again — the image satisfies `Inv` — and
 the readings before and after satisfy every condition of the abstract specification for `delete NAME` with that result: a
 refusal changes nothing; a success removes exactly that record, frees exactly its blocks, leaves every other record
 identical, and the volume well formed and leak free. -/
@@ -462,11 +463,29 @@ theorem prodos_retype_refines_inv {d : Disk} (hs : SInv d) (path nm : Bytes) (ne
 /-- **`rename(path, newName)` refines the abstract `rename`** (C02, C03, C05, C19): refused — and nothing changed — for an
 invalid new name (`SYNTAX`), a new name some entry of the volume directory already has (`DUPLICATE FILENAME`), a missing
 source (`PATH NOT FOUND`), a source whose rename bit is clear (`WRITE PROTECTED`); otherwise the record gets the upper-cased
-new name and keeps content, length, blocks, protection; every other record is identical -/
+new name and keeps content, length, blocks, protection; every other record is identical.  The source is not a sub-directory
+(`hfile`): renaming a directory renames the paths of the files in it, which the abstract `rename` does not describe -/
 theorem prodos_rename_refines {d : Disk} (hs : SInv d) (path nm newName : Bytes)
     (hnodes : normalizePath (volName (hdrOf d.raw)) path = .ok [volName (hdrOf d.raw), nm]) (hnm : nm ≠ [])
-    (hnv : NotVol (volName (hdrOf d.raw)) path) :
-    Refines d (Fs.Prodos.rename path newName d) (.rename (upper nm) (upper newName)) := rename_refines' hs path nm newName hnodes hnm hnv
+    (hnv : NotVol (volName (hdrOf d.raw)) path)
+    (hfile : ∀ f, (volOf d.raw).lookup (upper nm) = some f → f.isDir = false) :
+    Refines d (Fs.Prodos.rename path newName d) (.rename (upper nm) (upper newName)) :=
+  rename_refines' hs path nm newName hnodes hnm hnv (fun ch hic hv => by
+    cases hx : (dirSlots d.raw 2 ch).find? (isHit [stSubDirEntry] nm) with
+    | none => rfl
+    | some x =>
+      obtain ⟨f, hf, hd⟩ := dir_hit_lookup hs nm hv ch hic x hx
+      have := hfile f hf
+      rw [hd] at this; cases this)
+
+/-- **`create(path)` refines the abstract `mkdir`** (C02–C05; directory in the volume directory): refused — and nothing
+changed — for an invalid name (`SYNTAX`), a name some entry already has (`DUPLICATE FILENAME`), a full volume directory
+(`DIRECTORY FULL`), no free block (`DISK FULL`); otherwise the reading gains the record of an empty directory whose one block
+was free, every other record is identical, and the new image satisfies the invariant (the new key block has the standard
+geometry and names its parent entry) -/
+theorem prodos_mkdir_refines {d : Disk} (hs : SInv d) (path time nm : Bytes) (htime : time.length = 4 ∧ ∀ x ∈ time, x < 256)
+    (hnodes : normalizePath (volName (hdrOf d.raw)) path = .ok [volName (hdrOf d.raw), nm]) (hnm : nm ≠ []) :
+    Refines d (mkdir path time d) (.mkdir (upper nm)) := mkdir_refines' hs path time nm htime hnodes hnm
 
 /-- **the converse search correspondence** (C05): a valid name that `search_entries` does not find in the volume directory
 (among all storage types) is a name the reader does not list -/
@@ -515,25 +534,28 @@ theorem prodos_fits_is_accepted {d : Disk} (hs : SInv d) (v : Vol) (fsL : List R
       v4.label = v.label ∧ v4.freeUnits.length + blocksNeeded f = v.freeUnits.length :=
   put_ok hs v fsL ch hr ht f time nm pk hnodes hnm hv hnone x hslot hfit
 
-/-- **Refinement, one step** (volume-directory operations `put`, `delete`, `rename`, `lock`, `unlock`, `retype`) -/
-theorem prodos_step_refines {d : Disk} (hs : SInv d) (op : VOp) (hroot : op.Root (volName (hdrOf d.raw))) :
+/-- **Refinement, one step** (volume-directory operations `put`, `mkdir`, `delete`, `rename` of a file, `lock`, `unlock`, `retype`) -/
+theorem prodos_step_refines {d : Disk} (hs : SInv d) (op : VOp) (hroot : op.Root (volName (hdrOf d.raw)))
+    (hren : ∀ p n, op = .rename p n → ∀ f, (volOf d.raw).lookup (nameOf (volName (hdrOf d.raw)) p) = some f → f.isDir = false) :
     SInv (op.exec d).2 ∧
     stepOk prodosParams (volOf d.raw) (op.abs (volName (hdrOf d.raw))) (op.exec d).1 (volOf (op.exec d).2.raw) = true ∧
-    volName (hdrOf (op.exec d).2.raw) = volName (hdrOf d.raw) := step_refines hs op hroot
+    volName (hdrOf (op.exec d).2.raw) = volName (hdrOf d.raw) := step_refines hs op hroot hren
 
-/-- **Refinement, histories**: every history of volume-directory operations from an `SInv` state is a valid trace of the
-abstract specification, ends in an `SInv` state, and its final reading is the reading of the final image -/
-theorem prodos_history_refines (ops : List VOp) (d : Disk) (hs : SInv d) (hroot : ∀ op ∈ ops, op.Root (volName (hdrOf d.raw))) :
+/-- **Refinement, histories**: every history of volume-directory operations from an `SInv` state in which `rename` is applied
+to files only (`RenFiles`; `renFiles_of_no_rename`) is a valid trace of the abstract specification, ends in an `SInv` state,
+and its final reading is the reading of the final image -/
+theorem prodos_history_refines (ops : List VOp) (d : Disk) (hs : SInv d) (hroot : ∀ op ∈ ops, op.Root (volName (hdrOf d.raw)))
+    (hren : RenFiles (volName (hdrOf d.raw)) d ops) :
     validFrom prodosParams (volOf d.raw) (trace (volName (hdrOf d.raw)) d ops) ∧ SInv (finalDisk d ops) ∧
-    finalVol (volOf d.raw) (trace (volName (hdrOf d.raw)) d ops) = volOf (finalDisk d ops).raw := history_refines ops d hs hroot
+    finalVol (volOf d.raw) (trace (volName (hdrOf d.raw)) d ops) = volOf (finalDisk d ops).raw := history_refines ops d hs hroot hren
 
 /-- C02 for the concrete model: a file that no operation of the history names is found identical (content, length, type,
 flags, blocks) in the reading of the final image -/
 theorem prodos_bystanders_survive (ops : List VOp) (d : Disk) (hs : SInv d) (hroot : ∀ op ∈ ops, op.Root (volName (hdrOf d.raw)))
-    {q : Bytes} {g : FileRec} (hg : (volOf d.raw).lookup q = some g) (hd : g.isDir = false)
+    (hren : RenFiles (volName (hdrOf d.raw)) d ops) {q : Bytes} {g : FileRec} (hg : (volOf d.raw).lookup q = some g) (hd : g.isDir = false)
     (hq : ∀ op ∈ ops, q ∉ (op.abs (volName (hdrOf d.raw))).targets) :
     (volOf (finalDisk d ops).raw).lookup q = some g := by
-  obtain ⟨hv, _, heq⟩ := history_refines ops d hs hroot
+  obtain ⟨hv, _, heq⟩ := history_refines ops d hs hroot hren
   have := C02.bystanders_survive_history hv (fun s hs' => by
     obtain ⟨op, ho, e⟩ := mem_trace hs'
     rw [e]; exact hq op ho) hg hd
@@ -542,16 +564,18 @@ theorem prodos_bystanders_survive (ops : List VOp) (d : Disk) (hs : SInv d) (hro
 
 /-- C03 for the concrete model: the image after **every** step of every history, successful or refused, is read by the
 total reader as a well-formed volume, and satisfies `Inv` at the end -/
-theorem prodos_states_well_formed (ops : List VOp) (d : Disk) (hs : SInv d) (hroot : ∀ op ∈ ops, op.Root (volName (hdrOf d.raw))) :
+theorem prodos_states_well_formed (ops : List VOp) (d : Disk) (hs : SInv d) (hroot : ∀ op ∈ ops, op.Root (volName (hdrOf d.raw)))
+    (hren : RenFiles (volName (hdrOf d.raw)) d ops) :
     (∀ s ∈ trace (volName (hdrOf d.raw)) d ops, s.post.wfB = true) ∧ Inv (finalDisk d ops).raw := by
-  obtain ⟨hv, hfin, _⟩ := history_refines ops d hs hroot
+  obtain ⟨hv, hfin, _⟩ := history_refines ops d hs hroot hren
   exact ⟨C03.every_state_well_formed hv, hfin.inv⟩
 
 /-- C04 for the concrete model: after every history `free + owned + system = size` in the reading of the final image -/
-theorem prodos_free_accounting (ops : List VOp) (d : Disk) (hs : SInv d) (hroot : ∀ op ∈ ops, op.Root (volName (hdrOf d.raw))) :
+theorem prodos_free_accounting (ops : List VOp) (d : Disk) (hs : SInv d) (hroot : ∀ op ∈ ops, op.Root (volName (hdrOf d.raw)))
+    (hren : RenFiles (volName (hdrOf d.raw)) d ops) :
     (volOf (finalDisk d ops).raw).free + (volOf (finalDisk d ops).raw).allOwned.length + (volOf (finalDisk d ops).raw).sys.length =
       (volOf (finalDisk d ops).raw).hi - (volOf (finalDisk d ops).raw).lo := by
-  obtain ⟨_, hfin, _⟩ := history_refines ops d hs hroot
+  obtain ⟨_, hfin, _⟩ := history_refines ops d hs hroot hren
   obtain ⟨v, fsL, ch, hr, ht, _⟩ := hfin.ctx
   obtain ⟨hw, hn, _, hv, _, _, _, hchf, _, h6, h3, hbt, _⟩ := root_chain_facts hfin.inv v fsL ch hr ht
   rw [volOf_eq hr]
@@ -569,10 +593,10 @@ theorem prodos_free_accounting (ops : List VOp) (d : Disk) (hs : SInv d) (hroot 
 /-- C05 for the concrete model: the names the reader lists after a history are the fold of the history over the initial
 listing, and they are pairwise different -/
 theorem prodos_listing_is_history_fold (ops : List VOp) (d : Disk) (hs : SInv d) (hroot : ∀ op ∈ ops, op.Root (volName (hdrOf d.raw)))
-    (q : Bytes) :
+    (hren : RenFiles (volName (hdrOf d.raw)) d ops) (q : Bytes) :
     (q ∈ (volOf (finalDisk d ops).raw).paths ↔ q ∈ foldPaths (volOf d.raw).paths (trace (volName (hdrOf d.raw)) d ops)) ∧
     (volOf (finalDisk d ops).raw).paths.Nodup := by
-  obtain ⟨hv, hfin, heq⟩ := history_refines ops d hs hroot
+  obtain ⟨hv, hfin, heq⟩ := history_refines ops d hs hroot hren
   have := C05.listing_is_history_fold' hv q
   rw [heq] at this
   obtain ⟨v, hr, hw, _⟩ := inv_reading hfin.inv
@@ -581,12 +605,12 @@ theorem prodos_listing_is_history_fold (ops : List VOp) (d : Disk) (hs : SInv d)
 /-- C19 for the concrete model: a protected file survives every history in which nobody locks, unlocks or retypes it —
 identical content, length, type, flags and blocks at the end — and every delete or rename attempted on it was refused -/
 theorem prodos_locked_file_survives (ops : List VOp) (d : Disk) (hs : SInv d) (hroot : ∀ op ∈ ops, op.Root (volName (hdrOf d.raw)))
-    {q : Bytes} {g : FileRec} (hg : (volOf d.raw).lookup q = some g) (hl : g.locked = true) (hd : g.isDir = false)
+    (hren : RenFiles (volName (hdrOf d.raw)) d ops) {q : Bytes} {g : FileRec} (hg : (volOf d.raw).lookup q = some g) (hl : g.locked = true) (hd : g.isDir = false)
     (hop : ∀ op ∈ ops, op.abs (volName (hdrOf d.raw)) ≠ .lock q ∧ op.abs (volName (hdrOf d.raw)) ≠ .unlock q ∧
       op.abs (volName (hdrOf d.raw)) ≠ .retype q) :
     (volOf (finalDisk d ops).raw).lookup q = some g ∧
     ∀ s ∈ trace (volName (hdrOf d.raw)) d ops, (s.op = .delete q ∨ ∃ r, s.op = .rename q r) → s.ok = false := by
-  obtain ⟨hv, _, heq⟩ := history_refines ops d hs hroot
+  obtain ⟨hv, _, heq⟩ := history_refines ops d hs hroot hren
   have hop' : ∀ s ∈ trace (volName (hdrOf d.raw)) d ops, s.op ≠ .lock q ∧ s.op ≠ .unlock q ∧ s.op ≠ .retype q := by
     intro s hs'
     obtain ⟨op, ho, e⟩ := mem_trace hs'
@@ -603,15 +627,16 @@ theorem prodos_locked_file_survives (ops : List VOp) (d : Disk) (hs : SInv d) (h
 and auxiliary type — from the image at the end of **any** history of volume-directory operations that do not name it -/
 theorem prodos_get_returns_last_put (f : FImg) (t : Bytes) (ops : List VOp) (d : Disk) (hs : SInv d)
     (hroot : ∀ op ∈ VOp.put f t :: ops, op.Root (volName (hdrOf d.raw)))
+    (hren : RenFiles (volName (hdrOf d.raw)) d (VOp.put f t :: ops))
     (hok : ((VOp.put f t).exec d).1 = true)
     (hq : ∀ op ∈ ops, nameOf (volName (hdrOf d.raw)) f.fullPath ∉ (op.abs (volName (hdrOf d.raw))).targets) :
     ∃ g, (volOf (finalDisk d (VOp.put f t :: ops)).raw).lookup (nameOf (volName (hdrOf d.raw)) f.fullPath) = some g ∧
       chunksMatch f.chunks g.chunks = true ∧ g.eof = f.eof ∧ g.isDir = false ∧ g.ftype = f.fsType.getD 0 0 ∧
       g.aux = f.aux.getD 0 0 + 256 * f.aux.getD 1 0 := by
-  obtain ⟨h1, h2, h3⟩ := step_refines hs (.put f t) (hroot _ List.mem_cons_self)
+  obtain ⟨h1, h2, h3⟩ := step_refines hs (.put f t) (hroot _ List.mem_cons_self) hren.1
   rw [hok] at h2
   obtain ⟨hv, _, heq⟩ := history_refines ops ((VOp.put f t).exec d).2 h1
-    (fun o ho => by rw [h3]; exact hroot o (List.mem_cons_of_mem _ ho))
+    (fun o ho => by rw [h3]; exact hroot o (List.mem_cons_of_mem _ ho)) (by rw [h3]; exact hren.2)
   rw [h3] at hv heq
   obtain ⟨g, hg, _, hc, he, hd, hty, hax⟩ := C01.get_returns_last_put h2 hv (fun s hs' => by
     obtain ⟨op, ho, e⟩ := mem_trace hs'
